@@ -24,6 +24,9 @@ HDR='// Copyright 2026 Dolthub, Inc.
 
 func verif_old[T any](x T) T { return x }
 
+// verif_loopold(e) in a loop invariant: the value of e when the loop was entered (contracts only).
+func verif_loopold[T any](x T) T { return x }
+
 func verif_res[T any](i int) T { var z T; return z }
 
 func verif_implies(a, b bool) bool { return !a || b }
